@@ -83,16 +83,22 @@ theorem frames_exact_needed_witness :
     readWith full c 100 = .error .desync ∧ readWith { full with cls := none } c 100 = .ok (c.size, [Ev.classBegin 1]) := by
   decide
 
-/-- **old_stack_map_outside_model_witness**: a `Code` with an old-format `StackMap` attribute of more than one entry is
-outside the model (`oldMapOk`): `read_code` orders those entries by label id, so which frames it hands out depends on
-the labels created before — on the real code a visitor that is not interested in line numbers receives fewer frames than
-the full read reports (open finding, witness in `corpus/c17-open-finding-stackmap.txt`). The model refuses to predict
-(`unmodelled`) and `framesExact` / `wellFormed` exclude such files, so no theorem of this file speaks about them. -/
-theorem old_stack_map_outside_model_witness :
+/-- **old_stack_map_regression** (defect repaired in 69346bc): the entries of an old-format `StackMap` attribute used to
+be ordered by label id, so the frames handed out depended on which labels earlier attributes had created — a code
+visitor without interest in line numbers received fewer frames than the full read reports. Now the entries are ordered
+by bytecode offset: a class whose `Code` carries a `LineNumberTable` followed by a two-entry `StackMap` is well formed,
+and a visitor that masks the line numbers receives the same frames as the full read. -/
+theorem old_stack_map_regression :
     let c : ClassFrame := { hdrOk := true, hdr := 10, h := 1, fields := [], attrs := [],
-                            methods := [⟨2, [.code { len := 12 + 2 + (6 + 14), hdr := 12, maxs := 1, insns := 2,
-                                                     exc := 3, attrs := [⟨.stackMap, 14, 14, [2]⟩] }]⟩] }
-    readWith full c c.size = .error .unmodelled ∧ framesExact c = false := by
+                            methods := [⟨2, [.code { len := 12 + 2 + (6 + 6) + (6 + 14), hdr := 12, maxs := 1, insns := 2,
+                                                     exc := 3, attrs := [⟨.lineNumberTable, 6, 6, [1]⟩,
+                                                                         ⟨.stackMap, 14, 14, [2]⟩] }]⟩] }
+    let cfg : Cfg := { full with method := fun _ => some { mask := allMask, code := true,
+                                                           codeV := some (fun k => k != .lineNumberTable) } }
+    wellFormed c = true ∧
+    (readWith full c c.size).toOption.map (fun r => r.2.contains (Ev.codeInsns 0 (some [2]) 2)) = some true ∧
+    (readWith cfg c c.size).toOption.map (fun r => r.2.contains (Ev.codeInsns 0 (some [2]) 2)
+                                                     && !r.2.any (fun e => e matches Ev.codeLines _ _)) = some true := by
   decide
 
 /-! ## events delivered -/
